@@ -70,6 +70,8 @@ def add_canaries(u):
         if h[0] in ("fn", "loop") and ("spec" in e.sections or "body" in e.sections):
             if h[0] == "fn" and "requires" not in e.get("spec") and not e.get("body").strip():
                 continue
+            if "external_body" in e.get("attr"):
+                continue   # the body of a trusted function is not verified: no reachability obligation to plant
             n += 1
             cid = "CANARY%d" % n
             ne = rsx.Entry(list(h), e.lineno, e.path)
